@@ -18,7 +18,7 @@ def run(tier, seed):
     pack.assume('the devices attached to an off bus are described by a ghost relation attached_via(group, field, device); the '
                 'python lists built by act() are tracked as (membership, contains-None, non-empty) triples',
                 'System.connectivity (Goderya closure over kvxopt sparse products) is NOT proved: bounded stand-in only')
-    items = [(G.update('C12'),), (G.record('C12'), G.WIT_F12, G.replay_record), (G.act('C12'), G.WIT_F13, G.replay_act),
+    items = [(G.conn_init('C12'), None, G.replay_conn_init), (G.update('C12'),), (G.record('C12'), G.WIT_F12, G.replay_record), (G.act('C12'), G.WIT_F13, G.replay_act),
              (G.g_islands('C12'), None, G.replay_g_islands)]
     from contracts import fn_tds
     items.append((fn_tds.do_switch('C12'), None, fn_tds.replay_do_switch))
